@@ -134,7 +134,7 @@ bool MultiLogRecordProcessor::Shutdown(std::chrono::microseconds timeout) noexce
   }
   for (auto &processor : processors_)
   {
-    result |=
+    result &=
         processor->Shutdown(std::chrono::duration_cast<std::chrono::microseconds>(timeout_ns));
     start_time = std::chrono::system_clock::now();
     if (expire_time > start_time)
